@@ -14,11 +14,19 @@ Definition h1_size (s : bsize) : Encoder.bsize :=
 Definition h2_size (s : bsize) : Prepare.bsize :=
   match s with SzNone => Prepare.SNone | SzSized n => Prepare.SSized n | SzStream => Prepare.SStream end.
 
-(* the Response<()> handed to the h1 codec: status and NO_CHUNKING flag as Encoder::response left
-   them; connection flag and header fields are whatever the handler and update_head produced
-   (any list: the statement does not depend on it) *)
-Definition h1_resp (h' : head) (conn : option Encoder.conn_t) (headers : list (bytes * bytes)) : Encoder.resp :=
-  Encoder.mkResp (h_status h') conn (h_no_chunking h') headers.
+(* the Content-Length field of a head, as a header field *)
+Definition cl_fields (h' : head) : list (bytes * bytes) :=
+  match h_content_length h' with Some v => [(Encoder.str "content-length", v)] | None => [] end.
+Definition has_field (name : string) (hs : list (bytes * bytes)) : bool :=
+  existsb (fun kv : bytes * bytes => Encoder.name_is (fst kv) name) hs.
+
+(* the Response<()> handed to the h1 codec: status, NO_CHUNKING flag and Content-Length header as
+   Encoder::response left them; [others] are the remaining header fields (handler's and
+   update_head's: content-type, content-encoding, vary, ..), [conn] the connection flag *)
+Definition h1_resp (h' : head) (conn : option Encoder.conn_t) (others : list (bytes * bytes)) : Encoder.resp :=
+  Encoder.mkResp (h_status h') conn (h_no_chunking h') (cl_fields h' ++ others).
+(* the header list handed to the h2 prepare_response *)
+Definition h2_headers (h' : head) (others : list Prepare.header) : list Prepare.header := cl_fields h' ++ others.
 
 Lemma fv_cl_of_fields (r : Encoder.resp) ct ver (len_fields : list (bytes * bytes)) :
   RespSpec.field_values "content-length" (EncoderProofs.user_fields true r) = [] ->
@@ -42,122 +50,61 @@ Proof.
   - destruct (bytes_eqb _ _); inversion H; [left|right]; reflexivity.
 Qed.
 
-(* HTTP/1: an encoded response never carries a content-length line, whatever the handler put
-   into its headers and whatever it did with no_chunking; the body is chunk- or close-framed and
-   an RFC 7230 reader recovers exactly the chunks the Encoder emitted *)
-Theorem encoded_response_on_h1_wire :
-  forall (enc : coding) (h : head) (size : bsize) (c : coding) (h' : head),
-  encoder_response enc h size = (BEncode c, h') ->
-  forall (cd : Encoder.codec) (conn : option Encoder.conn_t) (headers : list (bytes * bytes))
-         (chunks : list bytes),
-  Encoder.c_head cd = false -> Encoder.c_stream cd = false ->
-  RespSpec.no_body_status (h_status h') = false ->
-  EncoderProofs.lower_names headers ->
+Lemma complete_without_length st fields after f b n :
+  RespSpec.no_body_status st = false ->
+  RespSpec.field_values "content-length" fields = [] ->
+  RespSpec.read_message false st fields after true = RespSpec.RComplete f b n ->
+  f = RespSpec.FChunked \/ f = RespSpec.FClose.
+Proof.
+  intros Hst Hno Hf. unfold RespSpec.read_message in Hf.
+  destruct (RespSpec.framing_of false st fields) as [fr|] eqn:Efr; [|discriminate].
+  destruct (framing_without_length _ _ _ Hst Hno Efr) as [-> | ->].
+  - destruct (RespSpec.read_chunked _ _ _); inversion Hf. left. reflexivity.
+  - inversion Hf. right. reflexivity.
+Qed.
+
+(* HTTP/1, any response r whose NO_CHUNKING flag is off, on a connection that is not in STREAM mode *)
+Lemma h1_wire_plain (cd : Encoder.codec) (r : Encoder.resp) (chunks : list bytes) :
+  Encoder.c_head cd = false -> Encoder.c_stream cd = false -> Encoder.rs_nochunk r = false ->
+  RespSpec.no_body_status (Encoder.rs_status r) = false ->
+  EncoderProofs.lower_names (Encoder.rs_headers r) ->
   Forall (fun b => lenN b < 2 ^ 64) chunks ->
-  let r := h1_resp h' conn headers in
-  let sz := h1_size (encoder_size (BEncode c) size) in
-  let fields := Encoder.hd_fields (EncoderProofs.item_head cd r sz) in
-  let cd1 := EncoderProofs.item_codec cd r sz in
+  let fields := Encoder.hd_fields (EncoderProofs.item_head cd r Encoder.BStream) in
+  let cd1 := EncoderProofs.item_codec cd r Encoder.BStream in
   RespSpec.field_values "content-length" fields = [] /\
   exists cd3 tail f,
     Encoder.codec_encode_eof (fst (Encoder.codec_encode_chunks cd1 chunks)) = Some (cd3, tail) /\
-    (f = RespSpec.FChunked \/ f = RespSpec.FClose) /\
-    RespSpec.read_message false (h_status h') fields
+    RespSpec.read_message false (Encoder.rs_status r) fields
       (snd (Encoder.codec_encode_chunks cd1 chunks) ++ tail) true =
     RespSpec.RComplete f (concat chunks) (lenN (snd (Encoder.codec_encode_chunks cd1 chunks) ++ tail)).
 Proof.
-  intros enc h size c h' Hdec cd conn headers chunks Hhead Hstream Hst Hlow Hch.
-  destruct (response_label _ _ _ _ _ Hdec) as [_ [_ [_ [_ [_ [Hnc [Hsz _]]]]]]].
-  cbv zeta. rewrite Hsz. cbn [h1_size]. set (r := h1_resp h' conn headers).
-  assert (Hnc' : Encoder.rs_nochunk r = false) by exact Hnc.
+  intros Hhead Hstream Hnc Hst Hlow Hch. cbv zeta.
   assert (H304 : Encoder.rs_status r <> 304).
-  { cbn. intro E. unfold RespSpec.no_body_status in Hst. rewrite E in Hst. cbn in Hst. discriminate. }
-  assert (Hno : RespSpec.field_values "content-length"
-                  (Encoder.hd_fields (EncoderProofs.item_head cd r Encoder.BStream)) = []).
-  { destruct (EncoderProofs.user_framing_headers_ignored cd r Encoder.BStream Hlow H304
-               (or_introl (conj Hnc' Hstream))) as [lf [Hf [_ [Hcl [_ Hlf]]]]].
+  { intro E. unfold RespSpec.no_body_status in Hst. rewrite E in Hst. cbn in Hst. discriminate. }
+  split.
+  - destruct (EncoderProofs.user_framing_headers_ignored cd r Encoder.BStream Hlow H304
+               (or_introl (conj Hnc Hstream))) as [lf [Hf [_ [Hcl [_ Hlf]]]]].
     rewrite Hf. apply fv_cl_of_fields; [exact Hcl|].
-    destruct Hlf as [H|[H|[n [H _]]]]; [left; exact H|right; exact H|discriminate]. }
-  split; [exact Hno|].
-  assert (Hpre : Encoder.rs_nochunk r = true \/ Encoder.c_stream cd = true -> Encoder.BStream = Encoder.BStream ->
-                 EncoderProofs.user_has "transfer-encoding" r = false /\ EncoderProofs.user_has "content-length" r = false).
-  { intros [Hx|Hx]; [rewrite Hnc' in Hx; discriminate|rewrite Hstream in Hx; discriminate]. }
-  pose proof (EncoderProofs.te_roundtrip cd r Encoder.BStream chunks Hhead Hst Hlow Hpre
-                (fun n Hn => ltac:(discriminate)) Hch ltac:(discriminate)) as H.
-  cbv zeta in H.
-  destruct (Encoder.codec_encode_eof
-              (fst (Encoder.codec_encode_chunks (EncoderProofs.item_codec cd r Encoder.BStream) chunks)))
-    as [[cd3 tail]|] eqn:Ee.
-  - destruct H as [_ [f Hf]]. exists cd3, tail, f. split; [reflexivity|].
-    cbn [EncoderProofs.cut] in Hf. split; [|exact Hf].
-    unfold RespSpec.read_message in Hf.
-    destruct (RespSpec.framing_of false (Encoder.rs_status r) _) as [fr|] eqn:Efr; [|discriminate].
-    destruct (framing_without_length _ _ _ Hst Hno Efr) as [-> | ->].
-    + destruct (RespSpec.read_chunked _ _ _); inversion Hf. left. reflexivity.
-    + inversion Hf. right. reflexivity.
-  - exfalso. destruct H as [n [Hn _]]. discriminate.
+    destruct Hlf as [H|[H|[n [H _]]]]; [left; exact H|right; exact H|discriminate].
+  - assert (Hpre : Encoder.rs_nochunk r = true \/ Encoder.c_stream cd = true -> Encoder.BStream = Encoder.BStream ->
+                   EncoderProofs.user_has "transfer-encoding" r = false /\ EncoderProofs.user_has "content-length" r = false).
+    { intros [Hx|Hx]; [rewrite Hnc in Hx; discriminate|rewrite Hstream in Hx; discriminate]. }
+    pose proof (EncoderProofs.te_roundtrip cd r Encoder.BStream chunks Hhead Hst Hlow Hpre
+                  (fun n Hn => ltac:(discriminate)) Hch ltac:(discriminate)) as H.
+    cbv zeta in H.
+    destruct (Encoder.codec_encode_eof
+                (fst (Encoder.codec_encode_chunks (EncoderProofs.item_codec cd r Encoder.BStream) chunks)))
+      as [[cd3 tail]|] eqn:Ee.
+    + destruct H as [_ [f Hf]]. exists cd3, tail, f. split; [reflexivity|exact Hf].
+    + exfalso. destruct H as [n [Hn _]]. discriminate.
 Qed.
 
-(* Outside the statement above (recorded, not claimed): a request that put the connection into
-   STREAM mode (CONNECT / upgrade).  There Codec::encode forces no_chunking for a stream-sized
-   response (C02's F18b repair), and a handler-supplied content-length IS forwarded in front of the
-   encoded body. *)
-Lemma stale_length_on_upgrade_request :
-  exists (cd : Encoder.codec) (headers : list (bytes * bytes)),
-    Encoder.c_stream cd = true /\
-    RespSpec.field_values "content-length"
-      (Encoder.hd_fields (EncoderProofs.item_head cd
-         (h1_resp {| h_status := 400; h_content_encoding := Some (coding_name Gzip);
-                     h_vary := [vary_accept_encoding]; h_no_chunking := false |} None headers)
-         Encoder.BStream)) <> [].
-Proof.
-  exists (Encoder.codec_decode (Encoder.codec_new true) (Encoder.mkReq false Encoder.V11 None true false)),
-         [(Encoder.str "content-length", Encoder.str "6100")].
-  split; [reflexivity|]. vm_compute. discriminate.
-Qed.
-
-(* HTTP/2: prepare_response copies a handler-supplied content-length through when the body size is
-   Stream, and h2 has no notion of no_chunking: the clause does NOT hold there *)
-Lemma stale_length_on_h2 :
-  exists hdrs, forall now,
-    Prepare.values_of Prepare.h_content_length
-      (fst (Prepare.prepare_response now 200 hdrs (h2_size (encoder_size (BEncode Gzip) (SzSized 6100)))))
-    = [Encoder.str "6100"].
-Proof. exists [(Prepare.h_content_length, Encoder.str "6100")]. intro now. vm_compute. reflexivity. Qed.
-
-(* ... it holds exactly for handlers that did not put a content-length into their headers *)
-Lemma no_length_on_h2_without_user_length now status hdrs size c :
-  Prepare.values_of Prepare.h_content_length hdrs = [] ->
-  Prepare.values_of Prepare.h_content_length
-    (fst (Prepare.prepare_response now status hdrs (h2_size (encoder_size (BEncode c) size)))) = [].
-Proof.
-  intro H. cbn [encoder_size h2_size].
-  pose proof (PrepareProofs.content_length_rule now status hdrs Prepare.SStream (fun _ => H)) as R.
-  exact R.
-Qed.
-
-(* ---------------------------------------------------------------- the known classes and the
-   positive statements outside them *)
-
-(* class `stale-length-h1-stream-request`: the request put the h1 codec into STREAM mode
-   (CONNECT / upgrade) AND the handler supplied a content-length header *)
-Definition Known_stale_h1_stream (cd : Encoder.codec) (r : Encoder.resp) : Prop :=
-  Encoder.c_stream cd = true /\ EncoderProofs.user_has "content-length" r = true.
-(* class `stale-length-h2`: HTTP/2 AND the handler supplied a content-length header *)
-Definition Known_stale_h2 (hdrs : list Prepare.header) : Prop :=
-  Prepare.values_of Prepare.h_content_length hdrs <> [].
-
-(* STREAM-mode request, handler without content-length / transfer-encoding header: the encoded
-   response is close-framed, carries no content-length, and the reader recovers the stream *)
-Theorem encoded_response_on_h1_stream_request :
-  forall (enc : coding) (h : head) (size : bsize) (c : coding) (h' : head),
-  encoder_response enc h size = (BEncode c, h') ->
-  forall (cd : Encoder.codec) (conn : option Encoder.conn_t) (headers : list (bytes * bytes))
-         (chunks : list bytes),
+(* HTTP/1, a connection in STREAM mode (CONNECT / upgrade request): needs a response without
+   content-length / transfer-encoding header fields *)
+Lemma h1_wire_stream (cd : Encoder.codec) (r : Encoder.resp) (chunks : list bytes) :
   Encoder.c_head cd = false -> Encoder.c_stream cd = true ->
-  RespSpec.no_body_status (h_status h') = false ->
-  EncoderProofs.lower_names headers ->
-  let r := h1_resp h' conn headers in
+  RespSpec.no_body_status (Encoder.rs_status r) = false ->
+  EncoderProofs.lower_names (Encoder.rs_headers r) ->
   EncoderProofs.user_has "content-length" r = false ->
   EncoderProofs.user_has "transfer-encoding" r = false ->
   Forall (fun b => lenN b < 2 ^ 64) chunks ->
@@ -166,12 +113,11 @@ Theorem encoded_response_on_h1_stream_request :
   RespSpec.field_values "content-length" fields = [] /\
   exists cd3 tail f,
     Encoder.codec_encode_eof (fst (Encoder.codec_encode_chunks cd1 chunks)) = Some (cd3, tail) /\
-    RespSpec.read_message false (h_status h') fields
+    RespSpec.read_message false (Encoder.rs_status r) fields
       (snd (Encoder.codec_encode_chunks cd1 chunks) ++ tail) true =
     RespSpec.RComplete f (concat chunks) (lenN (snd (Encoder.codec_encode_chunks cd1 chunks) ++ tail)).
 Proof.
-  intros enc h size c h' Hdec cd conn headers chunks Hhead Hstream Hst Hlow r Hcl Hte Hch. cbv zeta.
-  split.
+  intros Hhead Hstream Hst Hlow Hcl Hte Hch. cbv zeta. split.
   - rewrite EncoderProofs.item_head_eq.
     destruct (EncoderProofs.sa_cases cd r Encoder.BStream) as [[_ [E|E]]|[E _]];
       [rewrite Hstream in E; discriminate|congruence|].
@@ -188,3 +134,98 @@ Proof.
     + destruct H as [_ [f Hf]]. exists cd3, tail, f. split; [reflexivity|exact Hf].
     + exfalso. destruct H as [n [Hn _]]. discriminate.
 Qed.
+
+(* HTTP/1 (repaired code, F29): for EVERY request context of a non-HEAD request, an encoded
+   response never carries a content-length line, whatever the handler announced; the body is chunk-
+   or close-framed and an RFC 7230 reader recovers exactly the chunks the Encoder emitted.
+   (For a CONNECT / upgrade request the handler must not have set its own transfer-encoding.) *)
+Theorem encoded_response_on_h1_wire :
+  forall (enc : coding) (h : head) (size : bsize) (c : coding) (h' : head),
+  encoder_response enc h size = (BEncode c, h') ->
+  forall (cd : Encoder.codec) (conn : option Encoder.conn_t) (others : list (bytes * bytes))
+         (chunks : list bytes),
+  Encoder.c_head cd = false ->
+  RespSpec.no_body_status (h_status h') = false ->
+  EncoderProofs.lower_names others ->
+  has_field "content-length" others = false ->
+  (Encoder.c_stream cd = true -> has_field "transfer-encoding" others = false) ->
+  Forall (fun b => lenN b < 2 ^ 64) chunks ->
+  let r := h1_resp h' conn others in
+  let sz := h1_size (encoder_size (BEncode c) size) in
+  let fields := Encoder.hd_fields (EncoderProofs.item_head cd r sz) in
+  let cd1 := EncoderProofs.item_codec cd r sz in
+  RespSpec.field_values "content-length" fields = [] /\
+  exists cd3 tail f,
+    Encoder.codec_encode_eof (fst (Encoder.codec_encode_chunks cd1 chunks)) = Some (cd3, tail) /\
+    (f = RespSpec.FChunked \/ f = RespSpec.FClose) /\
+    RespSpec.read_message false (h_status h') fields
+      (snd (Encoder.codec_encode_chunks cd1 chunks) ++ tail) true =
+    RespSpec.RComplete f (concat chunks) (lenN (snd (Encoder.codec_encode_chunks cd1 chunks) ++ tail)).
+Proof.
+  intros enc h size c h' Hdec cd conn others chunks Hhead Hst Hlow Hcl Hte Hch.
+  destruct (response_label _ _ _ _ _ Hdec) as [_ [_ [_ [_ [_ [Hnc [Hnone [Hsz _]]]]]]]].
+  cbv zeta. rewrite Hsz. cbn [h1_size].
+  assert (Er : h1_resp h' conn others = Encoder.mkResp (h_status h') conn false others).
+  { unfold h1_resp, cl_fields. rewrite Hnc, Hnone. reflexivity. }
+  rewrite Er. set (r := Encoder.mkResp (h_status h') conn false others).
+  assert (Hmain : RespSpec.field_values "content-length"
+                    (Encoder.hd_fields (EncoderProofs.item_head cd r Encoder.BStream)) = [] /\
+                  exists cd3 tail f,
+                    Encoder.codec_encode_eof (fst (Encoder.codec_encode_chunks
+                       (EncoderProofs.item_codec cd r Encoder.BStream) chunks)) = Some (cd3, tail) /\
+                    RespSpec.read_message false (Encoder.rs_status r)
+                      (Encoder.hd_fields (EncoderProofs.item_head cd r Encoder.BStream))
+                      (snd (Encoder.codec_encode_chunks (EncoderProofs.item_codec cd r Encoder.BStream) chunks) ++ tail) true =
+                    RespSpec.RComplete f (concat chunks)
+                      (lenN (snd (Encoder.codec_encode_chunks (EncoderProofs.item_codec cd r Encoder.BStream) chunks) ++ tail))).
+  { destruct (Encoder.c_stream cd) eqn:Es.
+    - apply h1_wire_stream; try assumption; try exact Hcl; try exact (Hte eq_refl).
+    - apply h1_wire_plain; try assumption; try reflexivity. }
+  destruct Hmain as [Hno [cd3 [tail [f [He Hf]]]]]. split; [exact Hno|].
+  exists cd3, tail, f. split; [exact He|]. split; [|exact Hf].
+  exact (complete_without_length _ _ _ _ _ _ Hst Hno Hf).
+Qed.
+
+(* HTTP/2 (repaired code): no content-length is announced for an encoded response, whatever the
+   handler announced *)
+Theorem encoded_response_on_h2 :
+  forall (enc : coding) (h : head) (size : bsize) (c : coding) (h' : head),
+  encoder_response enc h size = (BEncode c, h') ->
+  forall (now : bytes) (others : list Prepare.header),
+  Prepare.values_of Prepare.h_content_length others = [] ->
+  Prepare.values_of Prepare.h_content_length
+    (fst (Prepare.prepare_response now (h_status h') (h2_headers h' others)
+            (h2_size (encoder_size (BEncode c) size)))) = [].
+Proof.
+  intros enc h size c h' Hdec now others Ho.
+  destruct (response_label _ _ _ _ _ Hdec) as [_ [_ [_ [_ [_ [_ [Hnone _]]]]]]].
+  unfold h2_headers, cl_fields. rewrite Hnone. cbn [app encoder_size h2_size].
+  exact (PrepareProofs.content_length_rule now (h_status h') others Prepare.SStream (fun _ => Ho)).
+Qed.
+
+(* ---------------------------------------------------------------- before the repair F29 *)
+(* update_head left the handler's Content-Length in the head; two paths forwarded it in front of
+   the encoded body (both reproduced on the implementation before commit 933caef) *)
+Definition head_announcing_6100 : head :=
+  {| h_status := 200; h_content_encoding := None; h_vary := []; h_no_chunking := true;
+     h_content_length := Some (Encoder.str "6100") |}.
+
+Lemma before_F29_stale_length_on_upgrade_request :
+  let h' := update_head_before_F29 Gzip head_announcing_6100 in
+  let cd := Encoder.codec_decode (Encoder.codec_new true) (Encoder.mkReq false Encoder.V11 None true false) in
+  Encoder.c_stream cd = true /\
+  RespSpec.field_values "content-length"
+    (Encoder.hd_fields (EncoderProofs.item_head cd (h1_resp h' None []) Encoder.BStream)) = [Encoder.str "6100"] /\
+  RespSpec.field_values "content-length"
+    (Encoder.hd_fields (EncoderProofs.item_head cd (h1_resp (update_head Gzip head_announcing_6100) None [])
+                                                Encoder.BStream)) = [].
+Proof. vm_compute. repeat split. Qed.
+
+Lemma before_F29_stale_length_on_h2 : forall now,
+  Prepare.values_of Prepare.h_content_length
+    (fst (Prepare.prepare_response now 200 (h2_headers (update_head_before_F29 Gzip head_announcing_6100) [])
+            Prepare.SStream)) = [Encoder.str "6100"] /\
+  Prepare.values_of Prepare.h_content_length
+    (fst (Prepare.prepare_response now 200 (h2_headers (update_head Gzip head_announcing_6100) [])
+            Prepare.SStream)) = [].
+Proof. intro now. vm_compute. split; reflexivity. Qed.
